@@ -145,6 +145,16 @@ class BuiltinV:
         self.name = name
 
 
+class ExtInst:
+    """An instance of a library class known by dotted name only (e.g. a protobuf message): never None."""
+
+    def __init__(self, cls_name):
+        self.cls_name = cls_name
+
+    def __repr__(self):
+        return 'ExtInst(%s)' % self.cls_name
+
+
 # ------------------------------------------------------------------------------- control flow
 class RaiseSignal(Exception):
     def __init__(self, exc):
@@ -153,9 +163,10 @@ class RaiseSignal(Exception):
 
 
 class _Return(Exception):
-    def __init__(self, value):
+    def __init__(self, value, src='return'):
         Exception.__init__(self)
         self.value = value
+        self.src = src
 
 
 class _Break(Exception):
@@ -326,9 +337,11 @@ class Path:
         self.opaque_errors = tuple(opaque_errors)
         self.order = list(order)
         self.exc = exc
+        self.ret_type = None          # dotted class name of the returned library object, if known
+        self.rpcs = set()
 
     def observable(self):
-        return (self.outcome, tuple(self.writes), tuple(sorted(set(self.opaque_errors))))
+        return (self.outcome, tuple(self.writes), tuple(sorted(set(self.opaque_errors))), self.ret_type)
 
     def compatible(self, other):
         a, b = self.decisions, other.decisions
@@ -357,6 +370,14 @@ class Model:
     status_ok = None
     servicer_key = None              # key of the servicer class registered with the gRPC server
     summaries = None                 # cache of RPC path summaries (set per analysis)
+    status_internal = None           # Ext name of the status a stub reports when the response cannot be serialised
+
+    def message_class(self, name):
+        """Is the library object `name` a message class (calling it yields an instance that is never None)?"""
+        return False
+
+    def datastore_return(self, method, interp):
+        return UNKNOWN
     enum_classes = ()                # Ext names of enum classes: two different members are unequal
     directable = frozenset()         # error tags decided by the abstract state
     unreachable = {}                 # error tags assumed never to hold: tag -> reason
@@ -382,6 +403,8 @@ class Interp:
         self.rpc_depth = 0
         self.rpc_name = None
         self.rpc_visits = {}
+        self.rpcs = set()
+        self.last_return = None
         self.depth = 0
         self.globals_cache = {}
         self.ctx_stack = []
@@ -665,7 +688,7 @@ class Interp:
             if pa == pb and pa in self.model.enum_classes:
                 return False            # two different members of one enum
             return None
-        known = (Const, InstV, ClsV, FuncV, ModV, Special, SeqV, Ext)
+        known = (Const, InstV, ClsV, FuncV, ModV, Special, SeqV, Ext, ExtInst)
         if isinstance(a, Const) and a.value is None and isinstance(b, known):
             return False
         if isinstance(b, Const) and b.value is None and isinstance(a, known):
@@ -759,6 +782,8 @@ class Interp:
             if any(f.name.endswith(s) for s in self.model.stub_suffixes):
                 return Special('stub')
             self.note('library call %s assumed to return normally' % f.name.split('(')[0])
+            if self.model.message_class(f.name):
+                return ExtInst(f.name)
             return UNKNOWN
         if node is not None:
             src = ast.unparse(node.func)
@@ -827,7 +852,7 @@ class Interp:
                 self.raise_(self.new_exc(cls))
             if is_write:
                 self.writes.append(name)
-            return UNKNOWN
+            return self.model.datastore_return(name, self)
         if o.kind == 'stub':
             return self.remote_rpc(name, args, kwargs, fr)
         return UNKNOWN
@@ -860,6 +885,7 @@ class Interp:
             self.model.summaries[key] = sm
         n = self.rpc_visits.get(name, 0) + 1
         self.rpc_visits[name] = n
+        self.rpcs.add(name)
         p = sm[self.oracle.choose(len(sm))]
         self.oracle.adopt(('rpc', name, n), p.order)
         self.writes.extend(p.writes)
@@ -894,7 +920,37 @@ class Interp:
             self.raise_(self.new_exc(self.model.remote_error, {'<code>': code}))
         if raised is not None:
             self.raise_(self.new_exc(self.model.remote_error, {'<code>': Ext(self.model.status_unknown)}))
+        # assumed gRPC semantics: a handler result that is not the declared response message cannot be serialised
+        if self.model.status_internal is not None:
+            bad = None
+            if isinstance(ret, Const) and ret.value is None:
+                bad = 'None'
+            elif isinstance(ret, ExtInst):
+                want = self.declared_response(f)
+                if want is not None and want != ret.cls_name:
+                    bad = ret.cls_name
+            if bad is not None:
+                self.fire('the remote handler %s returns %s: the response cannot be serialised' % (name, bad))
+                self.raise_(self.new_exc(self.model.remote_error, {'<code>': Ext(self.model.status_internal)}))
         return ret
+
+    def declared_response(self, f):
+        """Dotted name of the message class in the return annotation of a handler (Optional[X] -> X), or None."""
+        ann = f.node.returns
+        if isinstance(ann, ast.Constant) and isinstance(ann.value, str):
+            try:
+                ann = ast.parse(ann.value, mode='eval').body
+            except SyntaxError:
+                return None
+        if isinstance(ann, ast.Subscript) and ast.unparse(ann.value).split('.')[-1] == 'Optional':
+            ann = ann.slice
+        if not isinstance(ann, (ast.Name, ast.Attribute)):
+            return None
+        try:
+            v = self.eval(ann, Frame(f.mod, f.cls, None, f.qual))
+        except (RaiseSignal, Unsupported):
+            return None
+        return v.name if isinstance(v, Ext) and self.model.message_class(v.name) else None
 
     # ------------------------------------------------------------------ construction
     def is_attrs(self, ci):
@@ -993,9 +1049,11 @@ class Interp:
         try:
             self.exec_block(node.body, sub)
         except _Return as r:
+            self.last_return = '`%s` in %s' % (r.src, f.qual)
             return r.value
         finally:
             self.depth -= 1
+        self.last_return = 'falls off the end of %s' % f.qual
         return Const(None)
 
     def _bind(self, a, f, args, kwargs, sub):
@@ -1107,7 +1165,7 @@ class Interp:
             self.bind_target(s.target, UNKNOWN, fr)
 
     def s_Return(self, s, fr):
-        raise _Return(self.eval(s.value, fr) if s.value is not None else Const(None))
+        raise _Return(self.eval(s.value, fr) if s.value is not None else Const(None), ast.unparse(s)[:80])
 
     def s_Break(self, s, fr):
         raise _Break()
@@ -1162,6 +1220,16 @@ class Interp:
         handler call `handle_exception(X(...), ctx)`; None if the block is not of that shape."""
         if not stmts:
             return None
+        ck = (stmts[-1], len(stmts), self.model.terminal_handlers)
+        if ck not in _SHAPE_CACHE:
+            _SHAPE_CACHE[ck] = self._error_block_shape(stmts, fr)
+        shape = _SHAPE_CACHE[ck]
+        if shape is None:
+            return None
+        return self.model.classify(shape[0], fr.qual, shape[1], self)
+
+    def _error_block_shape(self, stmts, fr):
+        """(exception class key, ordinal) of an error block -- a function of the syntax only."""
         assigns = {}
         for st in stmts[:-1]:
             if isinstance(st, ast.Assign) and len(st.targets) == 1 and isinstance(st.targets[0], ast.Name):
@@ -1179,7 +1247,7 @@ class Interp:
             cls = self.static_exc_class(last.value.args[0], assigns, fr)
         if cls is None:
             return None
-        return self.model.classify(cls, fr.qual, self.error_ordinal(last, cls, fr), self)
+        return (cls, self.error_ordinal(last, cls, fr))
 
     def error_ordinal(self, last, cls, fr):
         """1-based ordinal of this error block among the error blocks of the same class in the function."""
@@ -1399,7 +1467,17 @@ class Frame:
         self.falsy = set()            # source text of expressions known to be falsy on this path
 
 
+_SHAPE_CACHE = {}
+_GEN_CACHE = {}
+
+
 def _is_generator(fn):
+    if fn not in _GEN_CACHE:
+        _GEN_CACHE[fn] = _is_generator_uncached(fn)
+    return _GEN_CACHE[fn]
+
+
+def _is_generator_uncached(fn):
     stack = list(fn.body)
     while stack:
         n = stack.pop()
@@ -1442,6 +1520,7 @@ def enumerate_paths(model, hier, entry, state, mode):
         it = Interp(model, hier, state, mode, o)
         model.setup_globals(it)
         exc = None
+        v = None
         try:
             v = entry(it)
             outcome = describe_outcome(it, 'return', v)
@@ -1452,6 +1531,10 @@ def enumerate_paths(model, hier, entry, state, mode):
             outcome = describe_outcome(it, 'return', r.value)
         out.append(Path(outcome, tuple(it.writes), dict(o.decisions), set(it.tags_seen), list(it.fired), set(it.notes),
                         it.opaque_errors, o.order, exc))
+        out[-1].rpcs = set(it.rpcs)
+        out[-1].last_return = it.last_return
+        if outcome[0] == 'return' and isinstance(v, ExtInst):
+            out[-1].ret_type = v.cls_name
         work.extend(o.pending)
         if len(out) > model.max_paths:
             raise PathLimit('more than %d paths' % model.max_paths)
